@@ -100,6 +100,11 @@ def run(ctx):
     for ln in lines[:: max(1, len(lines) // 3)][:3]:
         ctx.sample({k: ln[k] for k in ("kind", "proj", "pt", "coeffs", "atom", "resid_milli", "nkeys", "outcome")})
     bad = ctx.tlc_validate("Trace_C11", "Trace.cfg", [{k: v for k, v in ln.items() if k not in ("note", "doc_resid_milli")} for ln in lines])
+    ctx.selftest("Trace_C11", "Trace.cfg", [{k: v for k, v in ln.items() if k not in ('note', 'doc_resid_milli')} for ln in lines if ln["oid"] not in bad and (ln["outcome"] == "OK")], [
+        ("resid", lambda l: dict(l, resid_milli=2000)),
+        ("coeffs", lambda l: dict(l, coeffs=l["coeffs"][:-1])),
+        ("keys", lambda l: dict(l, keyset_ok=False)),
+        ("kinematics", lambda l: dict(l, kinematics_ok=False))])
     by = {ln["oid"]: (o, ln) for o, ln in zip(todo, lines)}
     for oid, clause in bad.items():
         o, ln = by[oid]
